@@ -342,3 +342,51 @@ Theorem C01_flagged_iff_infeasible_on_return fuel s o s' :
   ((exists k, (k < length (scons s'))%nat /\ uns_of s' k = true) /\ infeasible s').
 Proof. exact (flagged_iff_infeasible_on_return fuel s o s'). Qed.
 Print Assumptions C01_flagged_iff_infeasible_on_return.
+
+(* ================= static solver round (Vpsc/StaticModel.v: vpsc::Solver with its pairing heaps modelled shape-exactly,
+   time stamps, DFS total order; Vpsc/StaticFrame.v, StaticHeap.v, StaticInv.v, StaticExamples.v).  The model is run
+   against the compiled vpsc::Solver on every static instance of checks/c01.py / c02.py (exact comparison). *)
+From Adapt Require Import Vpsc.StaticModel Vpsc.StaticFrame Vpsc.StaticInv Vpsc.StaticInvB Vpsc.StaticExamples.
+
+(* Solver::satisfy on ANY constraint multigraph (DAG or not): if it returns, the invariants book / act_inv hold, every
+   constraint has slack >= -1e-10 and every ACTIVE constraint has slack exactly 0.  (The heap invariant heap_ok_in -
+   every element of a block's in-heap is a constraint into that block - is what makes mergeLeft's merges legal.) *)
+Theorem C01_static_satisfy_sat vs cs s' :
+  wf_vars vs -> wf_cons vs cs ->
+  static_satisfy (static_init vs cs) = Ok s' ->
+  book (base s') /\ act_inv (base s') /\
+  forall c, (c < length cs)%nat ->
+    ZERO_UPPERBOUND <= slack_val (base s') c /\ (act_of (base s') c = true -> slack_val (base s') c == 0).
+Proof. exact (static_satisfy_sat vs cs s'). Qed.
+Print Assumptions C01_static_satisfy_sat.
+
+(* the same in declarative terms, on the positions Solver::satisfy / Solver::solve report, for the INPUT problem *)
+Theorem C01_static_satisfy_sat_declarative vs cs s' :
+  wf_cons vs cs -> static_satisfy (static_init vs cs) = Ok s' ->
+  length (static_positions s') = length vs /\
+  forall k, In k cs -> ZERO_UPPERBOUND <= slackv vs (place_of (static_positions s')) k.
+Proof. exact (static_satisfy_sat_tol vs cs s'). Qed.
+Print Assumptions C01_static_satisfy_sat_declarative.
+
+Theorem C01_static_solve_sat_declarative vs cs s' :
+  wf_cons vs cs -> static_solve (static_init vs cs) = Ok s' ->
+  length (static_positions s') = length vs /\
+  forall k, In k cs -> ZERO_UPPERBOUND <= slackv vs (place_of (static_positions s')) k.
+Proof. exact (static_solve_sat_tol vs cs s'). Qed.
+Print Assumptions C01_static_solve_sat_declarative.
+
+(* every state of mergeLeft keeps the invariant (book, act_inv, heap_ok_in) *)
+Theorem C01_static_merge_left_inv s r s' : SI s -> inhabited (base s) r -> merge_left s r = Ok s' -> SI s'.
+Proof. exact (merge_left_inv s r s'). Qed.
+Print Assumptions C01_static_merge_left_inv.
+
+(* static_no_throw_on_dag: PARTIAL.  Proved: once the merge pass has left every slack >= 0 the closing scan does not
+   throw.  Not proved: that the merge pass achieves this on every DAG (needs the order argument about the pairing heap
+   with stale keys and the leftward monotonicity of processed blocks; both are evaluated as booleans on every visited
+   state of every DAG instance of every run - Vpsc/StaticInvB.v - with no counterexample). *)
+Theorem C01_static_no_throw_on_dag_partial s s1 :
+  merge_pass s = Ok s1 ->
+  (forall c, (c < length (scons (base s1)))%nat -> 0 <= slack_val (base s1) c) ->
+  exists s', static_satisfy s = Ok s' /\ base s' = cleanup (base s1).
+Proof. exact (static_no_throw_on_dag_partial s s1). Qed.
+Print Assumptions C01_static_no_throw_on_dag_partial.
